@@ -52,20 +52,20 @@ var frameEntries = []entrySpec{
 }
 
 type ptAnalysis struct {
-	p        *Program
-	objs     []*absObj
-	pts      map[ssa.Value]map[int]bool
-	contents map[int]map[string]map[int]bool
-	siteObj  map[ssa.Value]int
-	globObj  map[*ssa.Global]int
-	reach    map[*ssa.Function]bool
-	order    []*ssa.Function
-	changed  bool
+	p         *Program
+	objs      []*absObj
+	pts       map[ssa.Value]map[int]bool
+	contents  map[int]map[string]map[int]bool
+	siteObj   map[ssa.Value]int
+	globObj   map[*ssa.Global]int
+	reach     map[*ssa.Function]bool
+	order     []*ssa.Function
+	changed   bool
 	addrTaken map[*ssa.Function]bool
-	extObj   int
-	retVals  map[*ssa.Function][][]ssa.Value // per result index
-	tuple    map[ssa.Value]map[int]map[int]bool
-	nondet   []frameViolation
+	extObj    int
+	retVals   map[*ssa.Function][][]ssa.Value // per result index
+	tuple     map[ssa.Value]map[int]map[int]bool
+	nondet    []frameViolation
 }
 
 type writeRec struct {
